@@ -258,7 +258,7 @@ def _e2e(ctx, modes, fn_name='filter_case', gen_mode=None, label=None):
             if r.get('error'):
                 errors.append((r['id'], r['error']))
             for (p, msg) in r['failures']:
-                if p == pid:
+                if p == pid or p == 'ALL':
                     m = re.match(r'\[([a-z0-9-]+)\]', msg)
                     if m and m.group(1) in known_classes:
                         kf = known_classes[m.group(1)]
@@ -304,7 +304,7 @@ E2E_RULES['dryrun'] = ('generated histories as plain repositories and as fresh c
 
 E2E_COUNTS['quick']['backup'] = 120
 E2E_COUNTS['thorough']['backup'] = 2500
-E2E_RULES['backup'] = ('generated histories (annotated tags, refs outside heads/tags) as plain repositories and clones with remote-tracking refs, attached and detached HEAD; the real CLI with --force --backup and a generated option set, rotating the default location, the directory form and the file form of --backup-path, and an unwritable destination; then git bundle verify, bundle list-heads = pre-run for-each-ref, mirror clone of the bundle + fsck + every pre-run reachable object present; for the unwritable destination: non-zero exit and refs/HEAD/status/config/remotes/objects/work tree unchanged. Non-trivial: a bundle is written or refused.')
+E2E_RULES['backup'] = ('generated histories (annotated tags, refs outside heads/tags) as plain repositories and clones with remote-tracking refs, attached and detached HEAD; the real CLI with --force --backup and a generated option set, rotating the default location, the directory form and the file form of --backup-path, and an unwritable destination; then git bundle verify, bundle list-heads = pre-run for-each-ref, mirror clone of the bundle + fsck + every pre-run reachable object present; for the unwritable destination, for a reused file path with a stale lock, and for a `git bundle create` that a git shim kills with SIGKILL: non-zero exit and refs/HEAD/status/config/remotes/objects/work tree unchanged; on clones that differ from their origin, --backup --sensitive must bundle the pre-fetch refs. Non-trivial: a bundle is written or refused.')
 
 
 @runner
@@ -328,6 +328,8 @@ def e2e_sanity(ctx):
     # identities that are not valid UTF-8 (reflog files with a Latin-1 byte), non-bare and bare
     cases += [dict(id=3000 + m, mask=m, bare=False, latin1=True) for m in range(0, 512, step_bare)]
     cases += [dict(id=4000 + m, mask=m, bare=True, latin1=True) for m in range(0, 512, step_cfg)]
+    # configuration that changes what porcelain commands print (status.showUntrackedFiles=no …), not what the repository holds
+    cases += [dict(id=5000 + m, mask=m, bare=False, quietstatus=True) for m in range(0, 512, step_bare)]
     results = e2e.run_pool(e2e.sanity_case, cases)
     dist, mine = {}, []
     for r in results:
@@ -339,7 +341,7 @@ def e2e_sanity(ctx):
         for (p, msg) in r['failures']:
             mine.append((r['id'], msg))
     ctx.parts.append(dict(name='e2e(sanity)', evaluations=len(cases), distinct_nontrivial=dist.get('refused', 0),
-                          rule='exhaustive: every subset of the nine documented freshness violations (unstaged, staged, untracked, stash, extra reflog entries, extra worktree, extra remote, unpushed branch, loose object) applied to a fresh non-bare clone (2^9 = 512 states), a sample of the subsets on a fresh bare clone (where a linked worktree, reflog entries, an extra remote and loose objects still apply), with core.ignorecase/precomposeunicode set, and with a committer name that is not valid UTF-8 (Latin-1 bytes in the reflog files); the repository facts are gathered independently with plumbing, the Lean model of the pre-flight predicts accept/refuse and which error, and the real CLI (without --force) is compared with it; a refused run must leave refs, HEAD, status, config, remotes, objects, work tree and every file under .git outside filter-repo/ unchanged; --force is checked to bypass. Non-trivial: the run is refused.',
+                          rule='exhaustive: every subset of the nine documented freshness violations (unstaged, staged, untracked, stash, extra reflog entries, extra worktree, extra remote, unpushed branch, loose object) applied to a fresh non-bare clone (2^9 = 512 states), a sample of the subsets on a fresh bare clone (where a linked worktree, reflog entries, an extra remote and loose objects still apply), with core.ignorecase/precomposeunicode set, with a committer name that is not valid UTF-8 (Latin-1 bytes in the reflog files), and with status.showUntrackedFiles=no / status.relativePaths=false / diff.ignoreSubmodules=all in the repository configuration; a third of the refused runs are repeated with the identical command and must be refused again; the repository facts are gathered independently with plumbing, the Lean model of the pre-flight predicts accept/refuse and which error, and the real CLI (without --force) is compared with it; a refused run must leave refs, HEAD, status, config, remotes, objects, work tree and every file under .git outside filter-repo/ unchanged; --force is checked to bypass. Non-trivial: the run is refused.',
                           samples=[{'mask': cases[5]['mask'], 'violations': [v for i, v in enumerate(e2e.VIOLATIONS) if cases[5]['mask'] >> i & 1]}],
                           distribution=dist, wall_s=round(time.time() - t0, 1), exhaustive=True, impl_property_failures_for_this_property=len(mine)))
     for cid, msg in mine[:3]:
